@@ -19,19 +19,36 @@ LEVEL_TEXT = ("Coq theorems over an executable model of meiosis and of the seven
               "names follow the repeat pattern (as a permutation in general, in order while names fit the 7-digit zero-fill: _partial + _refuted), counters advance "
               "exactly, DH progeny are homozygous, marker metadata except vrnt_hapalt/vrnt_hapref is handed over (_partial + _refuted); the line-by-line "
               "segment-copy loop equals the per-marker reading. The model is tied to the code by evaluating it inside Coq on generated inputs with scripted draws "
-              "against the outputs of all seven protocols and of mat_*/dense_* (exact equality of every output array)")
+              "against the outputs of all seven protocols and of mat_*/dense_* (exact equality of every output array). Independently of the sampled "
+              "cases, Gen/C01_Kernel.v is regenerated from the source on every run (the crossover test rnd < xoprob, the index expressions, "
+              "initialisations and updates of the segment-copy loop, mat_dh/mat_mate/dense_dh/dense_cross, the statements of each protocol's mate() from "
+              "the parent-index expansion to the constructor call incl. names, labels and counters, the metadata hand-over, nparent) and proved equal "
+              "to the hand model (Proofs/C01_Kernel.v); the kernel theorems (crossover only where xoprob > 0, loop = mosaic, MOSAIC/DH/METADATA about "
+              "the regenerated mate_k) and a two-call session theorem (counters run on, labels never reused) are stated about those definitions")
 LEVEL_NOTE = ("trusted: Coq kernel + vm_compute; numpy slicing/repeat/stack/lexsort/unique semantics are modelled by hand and tied to the code only "
               "differentially; uniforms are scripted on the grid k/2^10 (a numpy Generator subclass), so the generator itself is outside the model; "
               "negative (wrap-around) parent indices, negative counts and progeny counters below 0 are outside the modelled domain; "
-              "object identity/aliasing of the metadata arrays is checked by the predicate only")
+              "aliasing is checked by the predicate only (progeny matrix/labels are new writable memory, not shared with the parents, the "
+              "arguments or between the two chromosome copies; writing into them does not reach the inputs); the marker-metadata arrays ARE shared "
+              "by reference between parents and progeny (library behaviour, recorded in the evidence histogram, not claimed either way); "
+              "the kernel translator (harness/translate/c01_kernel.py) is trusted and fail-closed: a statement outside its fragment is a broken "
+              "correspondence; the argument checks at the head of mate() are modelled by hand (expand_count), not regenerated; "
+              "genotype arrays with a number of phases other than 2 are outside the domain (mat_meiosis reads phases 0 and 1 only)")
 TECHNIQUE = "Coq proof over an executable model (refinement loop = per-marker mosaic, pedigree invariant); in-Coq vm_compute correspondence with scripted draws; provenance-tracing predicate"
 RULE = ("case = (protocol | mat_/dense_ function, genotype array, xoprob, xconfig, counts, nself, counters, metadata, scripted uniform pool); one PRNG; "
         "taxa 1..8, markers 1..24 in 1..3 chromosomes, int8 alleles incl. -128/127, xoprob from {0,2^-10,1/4,1/2,1-2^-10,1} and random k/2^10, "
         "draws biased to the comparison boundary (u = p and u = p - 2^-10), crosses 0..4 with selfs and repeated parents, scalar and array counts incl. 0, "
         "nself 0..3; plus predicate-only large cases (real PCG64, founder copies coded 2f+c+1, output run-length coded: more than 2^22 uniforms in one mat_meiosis/dense_meiosis call "
         "in the quick tier for a non-DH and a DH protocol, every protocol and 2^16..2^20 in thorough); plus provenance cases with real PCG64 draws and real-valued probabilities (small ones also evaluated in Coq on the exact rationals of the binary64 draws) and exhaustive crossover patterns; non-trivial = two founders of a cross "
-        "row differ at a marker and at least one scripted crossover fires; distinct by SHA-256 of the case")
-TRUSTED = ["rngscript.Scripted subclass handing out the case's uniform pool in request order (shapes and ranges requested are logged and compared)",
+        "row differ at a marker and at least one scripted crossover fires; distinct by SHA-256 of the case; "
+        "plus: an entry-point audit by introspection of the anchored modules (every public class/function/parameter is driven or listed in SKIPPED; a new one "
+        "fails the check); object lifecycle (parents through deepcopy/copy/select_taxa, protocol configured through the property setters with a decoy generator, "
+        "miscout and extra keywords passed, sessions of 2-3 mate() calls on ONE protocol and ONE pgmat object with matrix/xoprob replaced in place or through "
+        "setters, counters running on or set, generator replaced or continued); binary64 probabilities 2^-40, 2^-53, 1e-12, 2^-1022, 5e-324 and -0.0 next to "
+        "draws of exactly 0 (shipped to Coq as exact rationals); parent indices > 127 and > 255, nmating/nprogeny/their product > 127 and > 255, "
+        "crossover positions > 255; aliasing observables and a write-into-the-result test after every call")
+TRUSTED = ["harness/translate/c01_kernel.py (ast -> Gallina for the C01 kernel; fail closed) and Model/C01_Kit.v (loop_n, rangeZ, name_of, seg_loop: the vocabulary the regenerated definitions are written in)",
+           "rngscript.Scripted subclass handing out the case's uniform pool in request order (shapes and ranges requested are logged and compared)",
            "integer codes of strings/floats used to compare metadata arrays are injective (bytes of the value)"]
 SEARCH_MAX = 1600
 ASSUMPTIONS = ["parent indices in xconfig are 0 <= i (an index >= ntaxa is modelled as the IndexError it raises; negative numpy wrap-around indices are not modelled)",
@@ -207,14 +224,15 @@ def _proto_case(rng, proto, tier, opts=None):
     case["pool"] = _pool(rng, xoprob, _need_rows(proto, nm, np_, nself), 2 * p + 3, "none" if rng.random() < 0.05 else "mix")
     return case
 
-def _wide_case(rng, proto, kind):
+WIDE_COUNTS = [(1, 260), (260, 1), (16, 17), (2, 130), (130, 2)]      # (nmating, nprogeny): each count and the product beyond 127 / 255
+def _wide_case(rng, proto, kind, variant=0):
     """more founders, progeny or markers than a narrow integer type can count (index arrays cast to int8/uint8, narrow counters)"""
     if kind == "taxa":          # parent indices > 127 / > 255
-        n = rng.choice([130, 200, 260, 300])
+        n = [130, 300, 200, 260][variant % 4]
         return _proto_case(rng, proto, "quick", {"n": n, "p": rng.choice([2, 3]), "gmode": "random", "ncross": rng.choice([1, 2, 3]),
                                                  "parent_lo": rng.choice([128, n - 4]) if n < 257 else rng.choice([256, n - 4]), "nself": rng.choice([0, 1])})
     if kind == "progeny":       # more than 255 progeny from one cross
-        a, b = rng.choice([(16, 17), (17, 16), (1, 260), (130, 2)])
+        a, b = WIDE_COUNTS[variant % len(WIDE_COUNTS)]
         return _proto_case(rng, proto, "quick", {"n": rng.choice([2, 4]), "p": 2, "gmode": "distinct2", "ncross": 1, "counts": (a, b), "nself": 0,
                                                  "xomode": "set"})
     # markers: crossover positions beyond 255
@@ -364,9 +382,10 @@ def gen_cases(rng, tier):
         cases.append(_width_case(rng, proto))
         for _ in range(12 if quick else 150):
             cases.append(_real_case(rng, proto))
-        for _ in range(1 if quick else 12):
-            for kind in ("taxa", "taxa", "progeny", "markers"):
-                cases.append(_wide_case(rng, proto, kind))
+        for rep_ in range(1 if quick else 6):
+            for v in range(2 if quick else 4): cases.append(_wide_case(rng, proto, "taxa", v))
+            for v in range(len(WIDE_COUNTS)): cases.append(_wide_case(rng, proto, "progeny", v))
+            cases.append(_wide_case(rng, proto, "markers"))
         for _ in range(12 if quick else 200):
             cases.append(_session_case(rng, proto))
     for module in ("mat", "dense"):
